@@ -253,6 +253,10 @@ package meta
 //@   requires forall d string :: (d in data.Databases) ==> data.Databases[d] != nil && wf_default(data.Databases[d])
 //@   ensures result == nil ==> wf_default(data.Databases[database])
 //@   on_error unchanged(data.Databases[database].DefaultRetentionPolicy)
+// ... and the reference is never CLEARED by it: the lookup resolves the empty name to the current default, which then
+// stays the default (storing the name as given would leave the database without a default policy).
+//@   store DatabaseInfo.DefaultRetentionPolicy
+//@     requires [the_default_reference_is_never_cleared] val != ""
 
 //@ func (*Data).DropRetentionPolicy
 //@   requires data != nil
